@@ -43,6 +43,7 @@ CONSTANTS ShapeSet,     \* the family of plan shapes explored (Init picks one)
           Tolerated,    \* clauses allowed to be false (known findings), normally {}
           FnOut,        \* TRUE: a plugin's outcome is a function of the action alone (also across restarts)
           Poller,       \* TRUE: a reader polls the stored plan at any time (Status / Plan), emitting R events
+          Aging,        \* TRUE: a crash may last longer than the maximum age of a resumable plan (recover.agedOut)
           Gen           \* "off" | "full": hist is the history of observable events (scenario generation)
                         \* | "last": hist = <<last event, parity>> (trace conformance, EngineConf.tla)
 
@@ -61,9 +62,10 @@ VARIABLES sh,                 \* the shape (never changes)
           ncall,              \* [action -> plugin calls in this process lifetime]
           fate,               \* [action -> the outcome it had so far | "?"]   (only constrains anything when FnOut)
           wq,                 \* End: objects still to be written by writeEverything
+          aged,               \* the plan found Running by the new process is older than the maximum age
           obs, bad, hist
 
-evars == <<sh, mem, dur, mreason, dreason, pc, cb, wk, lim, fails, li, am, rn, cl, ch, runs, waiter, alive, crashes, ncall, fate, wq>>
+evars == <<sh, mem, dur, mreason, dreason, pc, cb, wk, lim, fails, li, am, rn, cl, ch, runs, waiter, alive, crashes, ncall, fate, wq, aged>>
 vars == <<evars, obs, bad, hist>>
 
 (* ------------------------------------------------------------------ *)
@@ -160,14 +162,14 @@ Init ==
   /\ waiter = "none" /\ alive = TRUE /\ crashes = 0
   /\ ncall = [o \in {d.obj : d \in {x \in DescsOf(sh) : x.k \in {"act", "cact"}}} |-> 0]
   /\ fate = [o \in {d.obj : d \in {x \in DescsOf(sh) : x.k \in {"act", "cact"}}} |-> "?"]
-  /\ wq = <<>>
+  /\ wq = <<>> /\ aged = FALSE
   /\ obs = InitObs(ConfigOf(sh)) /\ bad = {} /\ hist = IF Gen = "last" THEN <<[ev |-> "none"], 0>> ELSE <<>>
 
 (* ------------------------------------------------------------------ *)
 (* the action state machine (internal/execute/sm/actions)             *)
 (*   idle -> start -> exec -> incall -> watt -> (exec | end) -> done   *)
 (* ------------------------------------------------------------------ *)
-UNCH_MAIN == UNCHANGED <<sh, mreason, dreason, pc, cb, wk, lim, fails, li, rn, cl, ch, runs, waiter, alive, crashes, wq>>
+UNCH_MAIN == UNCHANGED <<sh, aged, mreason, dreason, pc, cb, wk, lim, fails, li, rn, cl, ch, runs, waiter, alive, crashes, wq>>
 
 \* Start: NotStarted -> Running, written.  A Running action (check actions, recovered) is not written again.
 AStart(a) ==
@@ -176,7 +178,9 @@ AStart(a) ==
        THEN /\ mem' = [mem EXCEPT ![a].st = RU]
             /\ dur' = [dur EXCEPT ![a] = [mem[a] EXCEPT !.st = RU]]
             /\ Emit([EvW(a) EXCEPT !.st = RU])
-       ELSE UNCHANGED <<mem, dur>> /\ Silent
+       ELSE IF mem[a].st \in {CO, FA} /\ Dirty(a)      \* runAction skips a finished action; its deferred UpdateAction stores
+         THEN UNCHANGED mem /\ Write(a) /\ Emit(EvW(a))  \* what recovery (fixAction) had repaired in memory only
+         ELSE UNCHANGED <<mem, dur>> /\ Silent
   /\ am' = [am EXCEPT ![a] = IF mem[a].st \in {NS, RU} THEN "exec" ELSE "done"]
   /\ UNCHANGED <<ncall, fate>> /\ UNCH_MAIN
 \* exec: out of budget => permanent stop; otherwise the plugin is invoked
@@ -218,7 +222,7 @@ ActionStep(a) ==
 (* one run of a check group (runChecksOnce + runActionsParallel)      *)
 (*   idle -> mark(k) -> acts -> done(res)      started by its caller   *)
 (* ------------------------------------------------------------------ *)
-UNCH_RUN == UNCHANGED <<sh, mreason, dreason, pc, cb, wk, lim, fails, li, cl, ch, runs, waiter, alive, crashes, wq, ncall, fate>>
+UNCH_RUN == UNCHANGED <<sh, aged, mreason, dreason, pc, cb, wk, lim, fails, li, cl, ch, runs, waiter, alive, crashes, wq, ncall, fate>>
 GroupScope(g) == obs.dd[g].b
 GroupKind(g) == obs.dd[g].g
 GActsOf(g) == GActs(GroupScope(g), GroupKind(g))
@@ -262,7 +266,7 @@ ClearRun(r, g) == [r EXCEPT ![g] = [st |-> "idle", k |-> 0]]
 (* continuous-check loops (runContChecks) and their channels          *)
 (*   off -> wait -> run -> (wait | exit) ; exit closes the channel     *)
 (* ------------------------------------------------------------------ *)
-UNCH_CL == UNCHANGED <<sh, mem, dur, mreason, dreason, pc, cb, wk, lim, fails, li, am, waiter, alive, crashes, wq, ncall, fate>>
+UNCH_CL == UNCHANGED <<sh, aged, mem, dur, mreason, dreason, pc, cb, wk, lim, fails, li, am, waiter, alive, crashes, wq, ncall, fate>>
 CName(sc) == Grp(sc, "cont")
 \* select: the ticker fires => one more run (both branches are enabled when cancelled: Go picks either)
 CTick(sc) ==
@@ -292,7 +296,7 @@ ChanDrained(sc) == ch[sc].closed /\ ~ch[sc].err
 (* sequence workers (the goroutine in ExecuteSequences + execSeq)     *)
 (*   w0 -> act(k) -> wait(k) -> ... -> rel(res) -> gone                *)
 (* ------------------------------------------------------------------ *)
-UNCH_WK == UNCHANGED <<sh, mreason, dreason, pc, cb, li, rn, cl, ch, runs, waiter, alive, crashes, wq, ncall, fate>>
+UNCH_WK == UNCHANGED <<sh, aged, mreason, dreason, pc, cb, li, rn, cl, ch, runs, waiter, alive, crashes, wq, ncall, fate>>
 Exceeded(b) == Tol(b) >= 0 /\ fails > Tol(b)
 SeqD(q) == obs.dd[q]
 \* defense in depth: threshold already exceeded => nothing runs; else sequence := Running, written
@@ -341,7 +345,7 @@ WorkersQuiet == \A q \in DOMAIN wk : wk[q].st \in {"none", "gone"}
 (* ------------------------------------------------------------------ *)
 (* the plan goroutine                                                 *)
 (* ------------------------------------------------------------------ *)
-UNCH_M == UNCHANGED <<sh, alive, crashes, ncall, fate>>
+UNCH_M == UNCHANGED <<sh, aged, alive, crashes, ncall, fate>>
 Goto(l) == pc' = l
 BlkName == ScopeName(cb)
 \* deferred UpdatePlan / UpdateBlock at the end of a state function: only when it changes the stored record
@@ -403,7 +407,9 @@ MPlanStartCont ==
 MExecBlock ==
   /\ pc = "ExecBlock"
   /\ IF cb > NBk THEN Goto("PlanPost") /\ UNCHANGED <<mem, dur, cb>> /\ Silent
-     ELSE IF mem[BlkName].st \in {CO, FA} THEN cb' = cb + 1 /\ UNCHANGED <<pc, mem, dur>> /\ Silent
+     ELSE IF mem[BlkName].st \in {CO, FA}     \* skipBlock; the deferred UpdateBlock stores what recovery fixed in memory
+          THEN /\ cb' = cb + 1 /\ UNCHANGED <<pc, mem>>
+               /\ IF Dirty(BlkName) THEN Write(BlkName) /\ Emit(EvW(BlkName)) ELSE UNCHANGED dur /\ Silent
      ELSE /\ mem' = [mem EXCEPT ![BlkName].st = RU]
           /\ IF dur[BlkName].st # RU THEN dur' = [dur EXCEPT ![BlkName].st = RU] /\ Emit([EvW(BlkName) EXCEPT !.st = RU])
                                       ELSE UNCHANGED dur /\ Silent
@@ -631,7 +637,9 @@ Crash ==
   /\ ch' = [sc \in DOMAIN ch |-> [err |-> FALSE, closed |-> FALSE, cancel |-> FALSE, started |-> FALSE]]
   /\ runs' = [sc \in DOMAIN runs |-> 0] /\ ncall' = [a \in DOMAIN ncall |-> 0] /\ wq' = <<>>
   /\ mem' = dur /\ mreason' = dreason           \* what the next process will read
-  /\ Emit([ev |-> "Crash", snap |-> SnapSeq(dur), reason |-> dreason, base |-> "-", old |-> FALSE, recovery |-> TRUE])
+  \* the process may stay down for longer than the configured maximum (WithMaxLastUpdate): the plan has aged out
+  /\ aged' \in (IF Aging /\ dur["p"].st = RU THEN BOOLEAN ELSE {FALSE})
+  /\ Emit([ev |-> "Crash", snap |-> SnapSeq(dur), reason |-> dreason, base |-> "-", old |-> aged', recovery |-> TRUE])
   /\ UNCHANGED <<sh, dur, dreason, cb, fate>>
 
 \* fixAction on a record
@@ -666,10 +674,10 @@ NeedsExec(m0, m1, b) == m0[ScopeName(b)].st = RU /\ m1[ScopeName(b)].st = RU /\ 
 NewProcess ==
   /\ ~alive /\ pc = "dead"
   /\ alive' = TRUE
-  /\ IF dur["p"].st = RU THEN waiter' = "open" /\ pc' = "fix" ELSE waiter' = "none" /\ pc' = "finished"
+  /\ IF dur["p"].st = RU THEN waiter' = "open" /\ pc' = (IF aged THEN "aged_close" ELSE "fix") ELSE waiter' = "none" /\ pc' = "finished"
   /\ IF dur["p"].st = RU THEN Emit([ev |-> "NewProc", running |-> TRUE])
      ELSE Emit([ev |-> "WaitRet", ok |-> TRUE, snap |-> SnapSeq(dur), reason |-> dreason, infl |-> 0])
-  /\ UNCHANGED <<sh, mem, dur, mreason, dreason, cb, wk, lim, fails, li, am, rn, cl, ch, runs, crashes, ncall, fate, wq>>
+  /\ UNCHANGED <<sh, aged, mem, dur, mreason, dreason, cb, wk, lim, fails, li, am, rn, cl, ch, runs, crashes, ncall, fate, wq>>
 \* fixPlan up to the blocks: plan-level verdicts, then fixBlock on every block (in-memory), then the sequences
 \* that are still Running are executed by fixBlock itself (all at once, no limiter, no threshold check)
 PlanVerdictEarly(m) ==
@@ -735,6 +743,23 @@ MFixDefJ ==
   /\ ClearRuns({Grp(cb, "deferred")}) /\ Goto("fix_def")
   /\ Silent /\ UNCH_MR /\ UNCH_M
 
+(* recover.filterPlans / agedOut (internal/execute/recovery.go): a Running plan whose newest time stamp is older than  *)
+(* the maximum is not resumed: the plan becomes Failed with reason ExceedRecovery, every object still Running becomes *)
+(* Failed (runningToFailed), and everything is written in walk order (writeAll; the plan first).  No plugin runs.     *)
+MAgedClose ==
+  /\ pc = "aged_close"
+  /\ mem' = [o \in DOMAIN mem |-> IF mem[o].st = RU THEN [mem[o] EXCEPT !.st = FA] ELSE mem[o]]
+  /\ mreason' = "FRExceedRecovery"
+  /\ wq' = WalkOrder /\ Goto("aged_write") /\ Silent
+  /\ UNCHANGED <<dur, dreason, cb, wk, lim, fails, li, am, rn, cl, ch, runs, waiter>> /\ UNCH_M
+MAgedWrite ==
+  /\ pc = "aged_write"
+  /\ LET q == SkipClean(wq) IN
+     IF q = <<>> THEN /\ Goto("Release") /\ wq' = <<>> /\ UNCHANGED <<dur, dreason>> /\ Silent
+     ELSE /\ Write(Head(q)) /\ dreason' = IF Head(q) = "p" THEN mreason ELSE dreason
+          /\ Emit(EvW(Head(q))) /\ wq' = Tail(q) /\ UNCHANGED pc
+  /\ UNCHANGED <<mem, mreason, cb, wk, lim, fails, li, am, rn, cl, ch, runs, waiter>> /\ UNCH_M
+
 (* ------------------------------------------------------------------ *)
 (* a polling reader (Workstream.Status / Plan): at any time it reads  *)
 (* the stored record of some object whose stored record differs from  *)
@@ -755,7 +780,7 @@ PollAgain(o) ==
   /\ UNCHANGED evars
 
 (* ------------------------------------------------------------------ *)
-Internal == MainStep \/ MFix \/ MFixWait \/ MFixFailBlocks \/ MFixDef \/ MFixDefJ
+Internal == MainStep \/ MFix \/ MFixWait \/ MFixFailBlocks \/ MFixDef \/ MFixDefJ \/ MAgedClose \/ MAgedWrite
             \/ (\E q \in DOMAIN wk : WorkerStep(q))
             \/ (\E g \in DOMAIN rn : RunStep(g))
             \/ (\E sc \in DOMAIN cl : ContStep(sc))
